@@ -16,11 +16,70 @@ MAX_BLOCKS = 80
 ROUNDS = 3
 
 
-def pinned():
+def pinned_table():
+    """{path: {'sig': [...], 'kind': ..}} of the functions that existed when the rules were written"""
     p = os.path.join(VERIF, 'spec', 'pinned_functions.json')
     if os.path.exists(p):
-        return set(json.load(open(p)))
+        t = json.load(open(p))
+        if isinstance(t, list):
+            return {x: None for x in t}
+        return t
     return None
+
+
+def pinned():
+    t = pinned_table()
+    return set(t) if t is not None else None
+
+
+def signature(f):
+    n = f['arg_count']
+    return [l['ty'] for l in f['locals'][:n + 1]]
+
+
+def parent_of(path):
+    # strip the last path segment outside generic brackets
+    depth = 0
+    last = -1
+    i = 0
+    while i < len(path) - 1:
+        ch = path[i]
+        if ch in '<([':
+            depth += 1
+        elif ch in '>)]':
+            depth -= 1
+        elif ch == ':' and path[i + 1] == ':' and depth == 0:
+            last = i
+            i += 1
+        i += 1
+    return path[:last] if last >= 0 else ''
+
+
+def alias_renames(j, table=None):
+    """A pinned function that disappeared while exactly one new function with the same parent path and the same
+    signature appeared is a rename: the facts are rewritten to the pinned name so that role/name anchored rules keep
+    working (and the renamed function is not mistaken for a freshly extracted helper)."""
+    table = table if table is not None else pinned_table()
+    if not table or any(v is None for v in table.values()):
+        return j, {}
+    cur = {}
+    for f in j['fns']:
+        cur.setdefault(f['path'], f)
+    missing = [p for p in table if p not in cur and table[p]['kind'] in ('Fn', 'AssocFn')]
+    new = [p for p, f in cur.items() if p not in table and f['kind'] in ('Fn', 'AssocFn') and not f.get('in_test')]
+    amap = {}
+    for m in missing:
+        cands = [n for n in new if parent_of(n) == parent_of(m) and signature(cur[n]) == table[m]['sig']]
+        others = [m2 for m2 in missing if m2 != m and parent_of(m2) == parent_of(m) and table[m2]['sig'] == table[m]['sig']]
+        if len(cands) == 1 and not others:
+            amap[cands[0]] = m
+    if not amap:
+        return j, {}
+    txt = json.dumps(j)
+    # longest names first so that a prefix of another name is not replaced inside it
+    for n in sorted(amap, key=len, reverse=True):
+        txt = txt.replace(json.dumps(n)[1:-1], json.dumps(amap[n])[1:-1])
+    return json.loads(txt), amap
 
 
 def _map_place(pl, lo, bo):
@@ -112,9 +171,10 @@ def calls_self(fn):
 
 def inline_new_helpers(j, known=None):
     """returns (new fact dict, report).  `j` is not modified."""
+    j, amap = alias_renames(j)
     known = known if known is not None else pinned()
     if known is None:
-        return j, {'inlined': [], 'reason': 'no pinned inventory'}
+        return j, {'inlined': [], 'reason': 'no pinned inventory', 'renamed': amap}
     byp = {}
     for f in j['fns']:
         byp.setdefault(f['path'], f)
@@ -122,7 +182,7 @@ def inline_new_helpers(j, known=None):
            and len(f['blocks']) <= MAX_BLOCKS and not calls_self(f)}
     # closures nested in new helpers are not inlined themselves; a new helper that only exists as a closure owner is fine
     if not new:
-        return j, {'inlined': []}
+        return j, {'inlined': [], 'renamed': amap}
     out = copy.deepcopy(j)
     fns = {}
     for f in out['fns']:
@@ -148,4 +208,4 @@ def inline_new_helpers(j, known=None):
         if not changed:
             break
     out['inlined'] = report
-    return out, {'inlined': report}
+    return out, {'inlined': report, 'renamed': amap}
